@@ -152,6 +152,18 @@ func (in *interp) block(list []*Stmt, parent *env, f *Func) ([]Value, bool) {
 				return ret, true
 			}
 		case SFor:
+			if s.Outer {
+				v := e.lookup(s.Var)
+				for i := 0; i < s.Count; i++ {
+					v.Bits = big.NewInt(int64(s.Start + i))
+					ret, done := in.block(s.Body, e, f)
+					if done {
+						return ret, true
+					}
+				}
+				v.Bits = big.NewInt(int64(s.Start + s.Count))
+				continue
+			}
 			loop := newEnv(e)
 			for i := 0; i < s.Count; i++ {
 				loop.define(s.Var, Value{Bits: big.NewInt(int64(i))})
@@ -209,8 +221,17 @@ func (in *interp) structOf(name string, e *env, f *Func) *StructDef {
 			if s.K == SVar && s.Name == name && s.T != nil && s.T.K == KStruct {
 				return in.p.Struct(s.T.S)
 			}
-			if s.K == SDefine && s.Name == name && s.E != nil && s.E.Op == EComposite && s.E.T.K == KStruct {
+			if s.K == SDefine && s.Name == name && s.E != nil && s.E.T.K == KStruct {
 				return in.p.Struct(s.E.T.S)
+			}
+			if s.K == SCall {
+				for i, n := range s.Names {
+					if n == name {
+						if fn := in.fn(s.Fn); i < len(fn.Results) && fn.Results[i].K == KStruct {
+							return in.p.Struct(fn.Results[i].S)
+						}
+					}
+				}
 			}
 			for _, sub := range [][]*Stmt{s.Then, s.Else, s.Body} {
 				if sd := find(sub); sd != nil {
